@@ -18,12 +18,17 @@ package main
 // goroutines above the baseline once all servers of the case are closed).
 
 import (
+	"bytes"
 	"context"
 	"errors"
 	"fmt"
 	"net"
+	"os"
+	"os/exec"
+	"regexp"
 	"runtime"
 	"sort"
+	"strconv"
 	"strings"
 	"sync"
 	"sync/atomic"
@@ -146,26 +151,28 @@ func classOf(res dht.QueryResult) string {
 }
 
 type qRun struct {
-	sc       *qScn
-	idx, rep int
-	conn     *holdConn
-	s        *dht.Server
-	lim      *rate.Limiter
-	dest     *net.UDPAddr
-	cancel   context.CancelFunc
-	mu       sync.Mutex
-	script   []qDir
-	term     bool
-	closed   bool
-	tid      string
-	okWrites int   // successful writes of the query so far
-	gates    int64 // calls of the resend-delay function
+	sc         *qScn
+	idx, rep   int
+	conn       *holdConn
+	s          *dht.Server
+	lim        *rate.Limiter
+	dest       *net.UDPAddr
+	cancel     context.CancelFunc
+	mu         sync.Mutex
+	script     []qDir
+	term       bool
+	closed     bool
+	tid        string
+	okWrites   int   // successful writes of the query so far
+	gates      int64 // calls of the resend-delay function
 	afterClose int
 }
 
 var qProbePort int32 = 20000
 
-func (r *qRun) detail() string { return fmt.Sprintf("%s rep=%d tag=%s", r.sc.lhs(r.idx), r.rep, r.sc.tag) }
+func (r *qRun) detail() string {
+	return fmt.Sprintf("%s rep=%d tag=%s", r.sc.lhs(r.idx), r.rep, r.sc.tag)
+}
 
 // runPoint performs the directives at the head of the script that belong to this point.
 func (r *qRun) runPoint(point string, i int) {
@@ -412,7 +419,9 @@ func (r *qRun) followUp(k int) qOutcome {
 	r.conn.fakeConn.mu.Unlock()
 	atomic.StoreInt64(&r.gates, 1<<20) // no gates any more
 	resCh := make(chan dht.QueryResult, 1)
-	go func() { resCh <- r.s.Query(context.Background(), dht.NewAddr(dest), "ping", dht.QueryInput{NumTries: 1}) }()
+	go func() {
+		resCh <- r.s.Query(context.Background(), dht.NewAddr(dest), "ping", dht.QueryInput{NumTries: 1})
+	}()
 	var out qOutcome
 	select {
 	case out.res = <-resCh:
@@ -523,11 +532,39 @@ func queryScenarios(tier string) []qScn {
 	return out
 }
 
+// queryEngine: the cases run in a child process (args -child -from <idx> [-only <idx>]); a crash or a deadlock of
+// the code under test ("all goroutines are asleep", a panic in the serve loop ...) kills only the child and is
+// reported against the case it happened in, with the qcase text as replay.
 func queryEngine(seed uint64, tier string, args []string) {
+	from, only, child := 0, -1, false
+	for i := 0; i < len(args); i++ {
+		switch args[i] {
+		case "-child":
+			child = true
+		case "-from":
+			from, _ = strconv.Atoi(args[i+1])
+			i++
+		case "-only":
+			only, _ = strconv.Atoi(args[i+1])
+			i++
+		}
+	}
 	scs := queryScenarios(tier)
+	if only >= 0 && only < len(scs) {
+		scs = scs[:only+1]
+		if from < only {
+			from = only
+		}
+	}
+	if !child {
+		qContained(seed, tier, scs, from, only)
+		return
+	}
 	time.Sleep(2 * time.Millisecond)
 	base0 := runtime.NumGoroutine()
-	for idx := range scs {
+	for idx := from; idx < len(scs); idx++ {
+		emit("#qstart %d", idx)
+		out.Flush()
 		sc := &scs[idx]
 		outs := map[string]bool{}
 		maxPending := 0
@@ -578,5 +615,82 @@ func queryEngine(seed uint64, tier string, args []string) {
 			// the follow-up queries are plain queries to a silent node: one line for the model
 			emit("qcase %d.b 1 z - 0 0 0 - => %d %s %d %d", idx, len(fl), strings.Join(fl, " "), 0, 0)
 		}
+		out.Flush()
+	}
+}
+
+func qContained(seed uint64, tier string, scs []qScn, from, only int) {
+	tmp, err := os.CreateTemp("", "verif-q-*.txt")
+	if err != nil {
+		panic(err)
+	}
+	tmp.Close()
+	defer os.Remove(tmp.Name())
+	for from < len(scs) {
+		cargs := []string{"-seed", strconv.FormatUint(seed, 10), "-tier", tier, "-out", tmp.Name(), "query", "-child", "-from", strconv.Itoa(from)}
+		if only >= 0 {
+			cargs = append(cargs, "-only", strconv.Itoa(only))
+		}
+		ctx, cancel := context.WithTimeout(context.Background(), 10*time.Minute)
+		cmd := exec.CommandContext(ctx, os.Args[0], cargs...)
+		var stderr bytes.Buffer
+		cmd.Stderr = &stderr
+		cmd.Stdout = &stderr
+		runErr := cmd.Run()
+		hung := ctx.Err() != nil
+		cancel()
+		data, _ := os.ReadFile(tmp.Name())
+		crashed := from
+		for _, l := range strings.Split(string(data), "\n") {
+			switch {
+			case l == "":
+			case strings.HasPrefix(l, "#qstart "):
+				if n, err := strconv.Atoi(strings.TrimPrefix(l, "#qstart ")); err == nil {
+					crashed = n
+				}
+			default:
+				emit("%s", l) // qcase lines of finished cases, oracle lines (also those of the case that was cut short)
+			}
+		}
+		if runErr == nil {
+			return
+		}
+		st := stderr.String()
+		site := "unknown"
+		if m := regexp.MustCompile(`(?m)^github\.com/anacrolix/dht/v2/?(\S+)`).FindStringSubmatch(st); m != nil {
+			f := regexp.MustCompile(`\(\*([A-Za-z0-9_]+)\)`).ReplaceAllString(m[1], "$1")
+			if i := strings.Index(f, "("); i >= 0 {
+				f = f[:i]
+			}
+			if i := strings.LastIndex(f, "/"); i >= 0 {
+				f = f[i+1:]
+			}
+			f = strings.TrimPrefix(f, ".")
+			if f != "" {
+				site = f
+			}
+		}
+		first := ""
+		for _, l := range strings.Split(st, "\n") {
+			if strings.HasPrefix(l, "panic:") || strings.HasPrefix(l, "fatal error:") {
+				first = l
+				break
+			}
+		}
+		deadlock := strings.Contains(st, "all goroutines are asleep")
+		if hung {
+			first, site = "child did not end within 10 minutes", "hung"
+		} else if deadlock {
+			site = "deadlock"
+		}
+		lhs, tag := "?", "?"
+		if crashed < len(scs) {
+			lhs, tag = scs[crashed].lhs(crashed), scs[crashed].tag
+		}
+		emit("oracle C01 process-died:%s %q in %s tag=%s replay: h -seed %d query -only %d", site, first, lhs, tag, seed, crashed)
+		if deadlock || hung || strings.HasPrefix(tag, "abandonment-window") {
+			emit("oracle C01 serve-loop-blocked-by-abandoned-query process %s (%q) in %s tag=%s replay: h -seed %d query -only %d", site, first, lhs, tag, seed, crashed)
+		}
+		from = crashed + 1
 	}
 }
